@@ -85,7 +85,7 @@ def handle : Protocol.Handler := fun j => do
       | _ => throw "mros: expected object") <|> pure []
   let W : World := {
     classes := fun c => (classes.find? (fun p => p.1 == c)).map (·.2),
-    scalarLoad := scalarLoad siteRows, scalarDump := scalarDump dumpRows }
+    scalarLoad := scalarLoad siteRows [], scalarDump := scalarDump dumpRows }
   let supers ← (do
       match (← field j "supers") with
       | .obj kvs => kvs.toList.mapM fun (k, v) => do return (k, ← (← asArr v).mapM asStr)
